@@ -342,3 +342,47 @@ def import_impl():
     import pdb2sql
     assert os.path.realpath(os.path.dirname(pdb2sql.__file__)).startswith(os.path.realpath(REPO)), pdb2sql.__file__
     return pdb2sql
+
+
+# ----------------------------------------------------------------------------------------
+# fingerprints of hand-modelled functions (DESIGN §3.1): a changed fingerprint is not an alarm, it
+# escalates the property's correspondence run to the thorough generator
+def hand_fingerprints(entries):
+    import ast, re
+    import py2coq
+    out = {}
+    for e in entries:
+        m = re.match(r'^([\w/]+\.py):([\w\.]+)', e)
+        if not m:
+            continue
+        rel, qual = m.group(1), m.group(2)
+        path = os.path.join(REPO, 'pdb2sql', rel)
+        key = f'{rel}:{qual}'
+        try:
+            tree = ast.parse(open(path).read())
+            scope = tree
+            node = None
+            parts = qual.split('.')
+            for i, name in enumerate(parts):
+                found = None
+                for n in scope.body:
+                    if isinstance(n, (ast.ClassDef, ast.FunctionDef)) and n.name == name:
+                        found = n
+                        break
+                if found is None:
+                    break
+                scope = found
+                node = found
+            else:
+                out[key] = py2coq.fingerprint(node)
+                continue
+            out[key] = 'missing'
+        except Exception as ex:
+            out[key] = 'error:' + type(ex).__name__
+    return out
+
+def changed_fingerprints(entries):
+    cur = hand_fingerprints(entries)
+    p = os.path.join(VERIF, 'translator', 'fingerprints.json')
+    gold = json.load(open(p)) if os.path.exists(p) else {}
+    return cur, sorted(k for k, v in cur.items() if k in gold and gold[k] != v), sorted(k for k in cur if k not in gold)
